@@ -805,13 +805,15 @@ func (c *xClient) SendRaw(ctx context.Context, r *protocol.Message) (map[string]
 	}
 
 	var e error
+	var m map[string]string
+	var payload []byte
 	switch c.failMode {
 	case Failtry:
 		retries := c.option.Retries
 		for retries >= 0 {
 			retries--
 			if client != nil {
-				m, payload, err := c.wrapSendRaw(ctx, client, r)
+				m, payload, err = c.wrapSendRaw(ctx, client, r)
 				if err == nil {
 					return m, payload, nil
 				}
@@ -838,7 +840,7 @@ func (c *xClient) SendRaw(ctx context.Context, r *protocol.Message) (map[string]
 		for retries >= 0 {
 			retries--
 			if client != nil {
-				m, payload, err := c.wrapSendRaw(ctx, client, r)
+				m, payload, err = c.wrapSendRaw(ctx, client, r)
 				if err == nil {
 					return m, payload, nil
 				}
@@ -863,14 +865,14 @@ func (c *xClient) SendRaw(ctx context.Context, r *protocol.Message) (map[string]
 		return nil, nil, err
 
 	default: // Failfast
-		m, payload, err := c.wrapSendRaw(ctx, client, r)
+		m, payload, err = c.wrapSendRaw(ctx, client, r)
 		if err != nil {
 			if uncoverError(err) {
 				c.removeClient(k, r.ServicePath, r.ServiceMethod, client)
 			}
 		}
 
-		return m, payload, nil
+		return m, payload, err
 	}
 }
 
